@@ -312,6 +312,8 @@ impl<const BITS: usize, const LIMBS: usize> Uint<BITS, LIMBS> {
     pub fn overflowing_shl(self, rhs: usize) -> (Self, bool) {
         let (limbs, bits) = (rhs / 64, rhs % 64);
         if limbs >= LIMBS {
+            #[cfg(recmo_uint_verif)]
+            crate::verif_hooks::hit(crate::verif_hooks::Hook::shl_whole_limbs_out);
             return (Self::ZERO, self != Self::ZERO);
         }
 
@@ -378,6 +380,8 @@ impl<const BITS: usize, const LIMBS: usize> Uint<BITS, LIMBS> {
     pub fn overflowing_shr(self, rhs: usize) -> (Self, bool) {
         let (limbs, bits) = (rhs / 64, rhs % 64);
         if limbs >= LIMBS {
+            #[cfg(recmo_uint_verif)]
+            crate::verif_hooks::hit(crate::verif_hooks::Hook::shr_whole_limbs_out);
             return (Self::ZERO, self != Self::ZERO);
         }
 
